@@ -7,7 +7,8 @@ from schemas import gen_case_schema, schema_text
 from values import canon
 
 PROP = 'C01'
-THEOREMS = ['C01_roundtrip', 'C01_concat', 'C01_validate_irrelevant']
+THEOREMS = ['C01_roundtrip', 'C01_concat', 'C01_validate_irrelevant', 'C01_decimal_fixed_numeric',
+            'C01_nonvacuous', 'C01_example_bytes']
 CFG = '(cfg 536870912 56 80)'
 RULE = ('schemas from the grammar generator (all primitive, logical, named, recursive kinds, namespace '
         'spellings), values from boundary tables + PRNG; each pair written with validation on and off, '
